@@ -34,10 +34,17 @@
 (*      such as email:o'brien@example.com (which the e-mail validator      *)
 (*      itself produces) is invisible to the immutable / masked namespace  *)
 (*      checks (utils.go:33,413).                                          *)
+(*  DEV_DelCredEmptyListIsNil  store.Users.UpdateTags returns a nil slice  *)
+(*      when no tag is left (SQL adapters: `var allTags []string` + append, *)
+(*      postgres/adapter.go:1193, mysql/adapter.go:1343), deleteCred passes *)
+(*      it on and Topic.replyDelCred reads nil as "tags not touched"        *)
+(*      (topic.go:3144-3155): deleting the credential whose tag was the     *)
+(*      LAST tag answers "no action" and leaves the live `me` topic's       *)
+(*      cached t.tags stale.                                                *)
 (***************************************************************************)
 EXTENDS Naturals, Sequences, FiniteSets
 
-CONSTANTS DEV_QuoteFlagsBeforeEmit, DEV_GluedAfterAccepted, DEV_RestrictedNeedsValidBody
+CONSTANTS DEV_QuoteFlagsBeforeEmit, DEV_GluedAfterAccepted, DEV_RestrictedNeedsValidBody, DEV_DelCredEmptyListIsNil
 
 ToSet(s) == {s[i] : i \in DOMAIN s}
 
@@ -341,6 +348,18 @@ SetTags(tags, raw, imm, maxCount) ==
     ELSE IF ~RestrictedEqual(tags, n.tags, imm) THEN [code |-> "denied", tags |-> tags, stored |-> FALSE]
     ELSE IF ToSet(tags) = ToSet(n.tags) THEN [code |-> "notmodified", tags |-> tags, stored |-> FALSE]
     ELSE [code |-> "ok", tags |-> n.tags, stored |-> TRUE]
+
+\* {del what=cred} on a live `me` topic: Topic.replyDelCred (topic.go:3130) -> deleteCred (user.go:482) ->
+\* validator.Remove + store.Users.UpdateTags(uid, nil, {method:value}, nil).  `stored` = the tags in the store,
+\* `cache` = the topic's t.tags, `tag` = method:value, `has` = the credential exists, `indexed` = the validator
+\* is configured with add_to_tags.  result = [code, stored, cache]
+DelCredTags(stored, cache, tag, has, indexed) ==
+  IF ~has \/ ~indexed THEN [code |-> "noaction", stored |-> stored, cache |-> cache]      \* user.go:528-532 / 545-547
+  ELSE LET st == SelectSeq(stored, LAMBDA x : x # tag)                                   \* the adapter removes the tag
+           retNil == DEV_DelCredEmptyListIsNil /\ st = <<>>                               \* ... and returns the list left
+           removed == ToSet(cache) \ ToSet(st)                                           \* stringSliceDelta(t.tags, tags)
+       IN  IF retNil THEN [code |-> "noaction", stored |-> st, cache |-> cache]           \* topic.go:3152-3154
+           ELSE [code |-> "ok", stored |-> st, cache |-> IF removed # {} THEN st ELSE cache]
 
 RECURSIVE Flatten(_)
 Flatten(ss) == IF ss = <<>> THEN <<>> ELSE Head(ss) \o Flatten(Tail(ss))
